@@ -9,11 +9,15 @@ import (
 	"fmt"
 	"io"
 	"math/rand"
+	"net"
 	"net/http"
+	"net/http/httptest"
+	"net/url"
 	"os"
 	"runtime"
 	"strconv"
 	"strings"
+	"sync"
 	"sync/atomic"
 	"time"
 
@@ -35,6 +39,25 @@ type c12File struct {
 	Declared bool   `json:"declared"`
 	SniffOK  bool   `json:"sniff_ok"`
 	Chunks   []bool `json:"chunks"` // each source Read during the copy: does it succeed?
+	// the error VALUE the Read marked false reports (c12ErrValues: 0 a custom error, 1 io.ErrUnexpectedEOF, 2 io.EOF - the
+	// file simply ends there, early -, 3 io.ErrClosedPipe, 4 context.Canceled, 5 an error wrapping io.EOF, 6 an error wrapping
+	// io.ErrUnexpectedEOF, 7 os.ErrDeadlineExceeded, 8 io.ErrNoProgress); the source is sticky: every later Read reports it again
+	Err int `json:"err,omitempty"`
+	// that Read hands out some bytes together with the error (n > 0, err != nil)
+	WithData bool `json:"with_data,omitempty"`
+	// the sniffing window: bytes delivered (by a Read of their own) before the failing Read, when the failing Read is the sniff's
+	SniffGot int `json:"sniff_got,omitempty"`
+	// the source is NOT sticky: it reports the value once and io.EOF from then on (a source built on io.ReadFull whose own
+	// input ends early does that with io.ErrUnexpectedEOF)
+	Once bool `json:"once,omitempty"`
+}
+
+// one exchange of a reuse history: the response body has Size bytes; the response reader reads it to its end (ReadAll)
+// or takes Take bytes of it and returns
+type c12Exch struct {
+	Size    int  `json:"size"`
+	ReadAll bool `json:"read_all,omitempty"`
+	Take    int  `json:"take,omitempty"`
 }
 
 type c12In struct {
@@ -71,6 +94,9 @@ type c12In struct {
 	// ClientTimeoutMs is its Timeout (0: none; negative: none for net/http); it needs ClientKind 1 or 2
 	ClientKind      int   `json:"client_kind,omitempty"`
 	ClientTimeoutMs int64 `json:"client_timeout_ms,omitempty"`
+	// reuse: sequential calls on ONE Runtime against a real loopback server (KeepAlive: connection reuse enabled; ClientKind 0/1)
+	Calls   []c12Exch `json:"calls,omitempty"`
+	Chunked bool      `json:"chunked,omitempty"` // the server announces no Content-Length and flushes in pieces
 	// deadline
 	ParentMs int64 `json:"parent_ms,omitempty"` // -1: the caller's context has no deadline
 	RuntimeCtx bool `json:"runtime_ctx,omitempty"` // the caller's context is Runtime.Context, not ClientOperation.Context
@@ -164,10 +190,21 @@ type c12Obs struct {
 	InTime        bool   `json:"in_time"`
 	ElapsedMs     int64  `json:"-"`
 	ElapsedNs     int64  `json:"-"`
+	// reuse: per exchange what was observed of the body the transport handed out; the connections the server saw
+	Exch  []c12ExchObs `json:"exch,omitempty"`
+	Conns int          `json:"conns,omitempty"`
 	// deadline (nanoseconds relative to the start of the call)
 	HasDeadline bool  `json:"has_deadline"`
 	DeadlineNs  int64 `json:"-"`
 	DurationNs  int64 `json:"-"`
+}
+
+type c12ExchObs struct {
+	Taken  int64  `json:"taken"`  // bytes taken off the connection through the body (by the reader and by Close)
+	Ended  bool   `json:"ended"`  // a Read of the body reported io.EOF
+	Closes int32  `json:"closes"` // Close calls on it
+	OK     bool   `json:"ok"`     // Submit succeeded
+	Err    string `json:"err,omitempty"`
 }
 
 type c12 struct{}
@@ -184,12 +221,18 @@ func (c12) Rule() string {
 		"Runtime.Debug on/off (request and response dumped) / response body of a consumed, unknown or binary type, complete or failing (reset, truncated, stalled) at every offset; " +
 		"timed calls (stalled transport or stalled response body) under negative, tiny and ordinary request timeouts and caller deadlines shorter, longer, alone, already passed; " +
 		"the http.Client in use (the runtime's own, NewWithClient, ClientOperation.Client) without or with a Timeout of its own (shorter than the bound, far longer, negative); responses of 200 KiB to 2 MiB under connection reuse; " +
+		"the error VALUE a failing source Read reports (a custom error, io.ErrUnexpectedEOF, io.EOF early = the file just ends, io.ErrClosedPipe, context.Canceled, errors wrapping io.EOF / io.ErrUnexpectedEOF, os.ErrDeadlineExceeded, io.ErrNoProgress; alone or with some bytes; sticky) at every failing position incl. inside the sniffing window; " +
+		"reuse: histories of 1-5 sequential calls on ONE Runtime against a real loopback server through a real http.Transport (connection reuse enabled or not, the runtime's own client or NewWithClient, Content-Length or chunked, bodies of 10 bytes to 5 MiB of which the reader takes nothing, a few bytes, half, or all): bytes taken off the connection, end seen, Close count per body, connections accepted by the server; " +
+		"a stub response body without a scripted fault refuses Reads once the context of the exchange has ended, as a net/http body does; " +
 		"deadline: caller deadline absent, on the operation or on the runtime x timeout 0, negative, tiny, ordinary x the client's own Timeout. Non-trivial: every drain case with at least one segment, every call case, every deadline case."
 }
 
 func (c12) Decode(raw json.RawMessage) (any, error) {
 	var in c12In
 	err := json.Unmarshal(raw, &in)
+	if in.Kind == "reuse" {
+		in = c12NormReuse(in)
+	}
 	return in, err
 }
 
@@ -284,9 +327,36 @@ type c12Unit struct {
 }
 
 type c12Src struct {
-	name   string
-	units  []c12Unit
-	closes int32
+	name     string
+	units    []c12Unit
+	closes   int32
+	failErr  error // what the failing Read reports (nil: errC12Src), again and again
+	withData bool  // the first failing Read hands out some bytes together with the error
+	once     bool  // after the failing Read has reported its value once the source reports io.EOF
+	failed   bool
+}
+
+// the error values an upload source may fail with; only the bare io.EOF is the end of a file
+var c12ErrValues = []error{errC12Src, io.ErrUnexpectedEOF, io.EOF, io.ErrClosedPipe, context.Canceled,
+	fmt.Errorf("c12: source: %w", io.EOF), fmt.Errorf("c12: source: %w", io.ErrUnexpectedEOF), os.ErrDeadlineExceeded, io.ErrNoProgress}
+var c12ErrNames = []string{"custom", "unexpected-eof", "eof", "closed-pipe", "ctx-canceled", "wrapped-eof", "wrapped-unexpected-eof", "deadline-exceeded", "no-progress"}
+
+func c12ErrCode(f c12File) int {
+	if f.Err < 0 || f.Err >= len(c12ErrValues) {
+		return 0
+	}
+	return f.Err
+}
+
+// what the model is told about that value: the end of the file, a truncated stream, any other error
+func c12ErrKind(f c12File) string {
+	switch c12ErrCode(f) {
+	case 1:
+		return "RdTrunc"
+	case 2:
+		return "RdEnd"
+	}
+	return "RdErr"
 }
 
 func (s *c12Src) Read(p []byte) (int, error) {
@@ -295,7 +365,26 @@ func (s *c12Src) Read(p []byte) (int, error) {
 	}
 	u := &s.units[0]
 	if !u.ok {
-		return 0, errC12Src
+		err := s.failErr
+		if err == nil {
+			err = errC12Src
+		}
+		if s.once && s.failed {
+			return 0, io.EOF
+		}
+		if s.withData && !s.failed && len(p) > 0 {
+			s.failed = true
+			n := 10
+			if n > len(p) {
+				n = len(p)
+			}
+			for i := 0; i < n; i++ {
+				p[i] = 'd'
+			}
+			return n, err
+		}
+		s.failed = true
+		return 0, err
 	}
 	n := len(p)
 	if n >= u.size {
@@ -358,6 +447,13 @@ func (b *c12RespBody) fail() error {
 }
 
 func (b *c12RespBody) Read(p []byte) (int, error) {
+	// like a body of net/http: once the context of the exchange has ended nothing more can be read. (Only for a body
+	// without a scripted fault: a scripted fault decides by itself what a Read reports and when.)
+	if b.fault == 0 && b.ctx != nil {
+		if err := b.ctx.Err(); err != nil {
+			return 0, err
+		}
+	}
 	pos, lim := int(atomic.LoadInt32(&b.pos)), b.limit()
 	if pos >= lim {
 		if b.fault != 0 {
@@ -407,8 +503,16 @@ func c12RunCall(in c12In) c12Obs {
 	var obs c12Obs
 	var srcs []*c12Src
 	for i, f := range in.Files {
-		s := &c12Src{name: fmt.Sprintf("dir/file%d.bin", i)}
+		s := &c12Src{name: fmt.Sprintf("dir/file%d.bin", i), failErr: c12ErrValues[c12ErrCode(f)], withData: f.WithData, once: f.Once}
 		if !f.Declared {
+			if !f.SniffOK && f.SniffGot > 0 && f.SniffGot < 512 { // the failure comes after some bytes of the sniffing window
+				got := f.SniffGot
+				if f.WithData && got > 500 {
+					// bytes next to the error must not fill the window: io.ReadFull drops the error of a Read that completes the buffer
+					got = 500
+				}
+				s.units = append(s.units, c12Unit{got, true})
+			}
 			s.units = append(s.units, c12Unit{512, f.SniffOK})
 		}
 		for _, ok := range f.Chunks {
@@ -623,6 +727,190 @@ func c12RunCall(in c12In) c12Obs {
 	return obs
 }
 
+// ---------- reuse: sequential calls against a real server ----------
+
+// the body the real transport handed out, counted: what is taken off the connection through it, whether its end was seen,
+// how often it was closed. It sits UNDER the keep-alive wrapper, so a draining Close reads through it.
+type c12CountedBody struct {
+	io.ReadCloser
+	rec *c12ExchObs
+	mu  *sync.Mutex
+}
+
+func (b *c12CountedBody) Read(p []byte) (int, error) {
+	n, err := b.ReadCloser.Read(p)
+	b.mu.Lock()
+	b.rec.Taken += int64(n)
+	if err == io.EOF {
+		b.rec.Ended = true
+	}
+	b.mu.Unlock()
+	return n, err
+}
+
+func (b *c12CountedBody) Close() error {
+	b.mu.Lock()
+	b.rec.Closes++
+	b.mu.Unlock()
+	return b.ReadCloser.Close()
+}
+
+type c12CountingRT struct {
+	wrapped http.RoundTripper
+	mu      sync.Mutex
+	recs    []*c12ExchObs
+}
+
+func (t *c12CountingRT) RoundTrip(req *http.Request) (*http.Response, error) {
+	res, err := t.wrapped.RoundTrip(req)
+	if err != nil {
+		return res, err
+	}
+	rec := &c12ExchObs{}
+	t.mu.Lock()
+	t.recs = append(t.recs, rec)
+	t.mu.Unlock()
+	res.Body = &c12CountedBody{ReadCloser: res.Body, rec: rec, mu: &t.mu}
+	return res, nil
+}
+
+// c12RunReuse: a real HTTP server on the loopback interface, a real http.Transport, ONE Runtime, the calls of the history one
+// after the other. Observed are logical facts only: per response body the bytes taken off the connection, whether its end was
+// seen, its Close count; the number of connections the server accepted.
+func c12RunReuse(in c12In) c12Obs {
+	var obs c12Obs
+	var newConns int32
+	piece := make([]byte, 32<<10)
+	for i := range piece {
+		piece[i] = 'x'
+	}
+	srv := httptest.NewUnstartedServer(http.HandlerFunc(func(rw http.ResponseWriter, req *http.Request) {
+		n, _ := strconv.Atoi(req.URL.Query().Get("n"))
+		rw.Header().Set("Content-Type", "application/octet-stream")
+		if !in.Chunked {
+			rw.Header().Set("Content-Length", strconv.Itoa(n))
+		}
+		rw.WriteHeader(http.StatusOK)
+		for n > 0 {
+			k := len(piece)
+			if k > n {
+				k = n
+			}
+			if _, err := rw.Write(piece[:k]); err != nil {
+				return
+			}
+			if in.Chunked {
+				if f, ok := rw.(http.Flusher); ok {
+					f.Flush()
+				}
+			}
+			n -= k
+		}
+	}))
+	srv.Config.ConnState = func(_ net.Conn, st http.ConnState) {
+		if st == http.StateNew {
+			atomic.AddInt32(&newConns, 1)
+		}
+	}
+	srv.Start()
+	defer srv.Close()
+	hu, err := url.Parse(srv.URL)
+	if err != nil {
+		obs.Panicked, obs.Panic = true, "c12: "+err.Error()
+		return obs
+	}
+	tr := &http.Transport{}
+	defer tr.CloseIdleConnections()
+	counting := &c12CountingRT{wrapped: tr}
+	var r *client.Runtime
+	if in.ClientKind == 1 {
+		r = client.NewWithClient(hu.Host, "/", []string{"http"}, &http.Client{Transport: counting})
+	} else {
+		r = client.New(hu.Host, "/", []string{"http"})
+		r.Transport = counting
+	}
+	if in.KeepAlive {
+		r.EnableConnectionReuse()
+	}
+	r.SetLogger(c12NoLog{})
+	done := make(chan struct{})
+	go func() {
+		defer close(done)
+		obs.Panicked, obs.Panic = recoverTo(func() {
+			for _, c := range in.Calls {
+				c := c
+				before := len(counting.recs)
+				_, err := r.Submit(&rt.ClientOperation{
+					ID: "blob", Method: "GET", PathPattern: "/blob", ProducesMediaTypes: []string{"application/octet-stream"},
+					ConsumesMediaTypes: []string{"application/json"}, Schemes: []string{"http"},
+					Params: rt.ClientRequestWriterFunc(func(req rt.ClientRequest, _ strfmt.Registry) error {
+						return req.SetQueryParam("n", strconv.Itoa(c.Size))
+					}),
+					Reader: rt.ClientResponseReaderFunc(func(resp rt.ClientResponse, _ rt.Consumer) (interface{}, error) {
+						if c.ReadAll {
+							_, e := io.Copy(io.Discard, resp.Body())
+							return "all", e
+						}
+						_, e := io.ReadFull(resp.Body(), make([]byte, c.Take))
+						return "some", e
+					}),
+				})
+				var e c12ExchObs
+				counting.mu.Lock()
+				if len(counting.recs) == before+1 {
+					e = *counting.recs[before]
+				}
+				counting.mu.Unlock()
+				e.OK = err == nil && len(counting.recs) == before+1
+				if err != nil {
+					e.Err = err.Error()
+				}
+				obs.Exch = append(obs.Exch, e)
+			}
+		})
+	}()
+	select {
+	case <-done:
+	case <-time.After(60 * time.Second):
+		return c12Obs{Panicked: true, Panic: "watchdog: the history of calls did not end"}
+	}
+	obs.Conns = int(atomic.LoadInt32(&newConns))
+	obs.InTime = true
+	return obs
+}
+
+// c12NormReuse keeps a history within bounds (replay and corpus inputs are taken as they come)
+func c12NormReuse(in c12In) c12In {
+	if len(in.Calls) > 8 {
+		in.Calls = in.Calls[:8]
+	}
+	calls := append([]c12Exch(nil), in.Calls...)
+	for i := range calls {
+		c := &calls[i]
+		if c.Size < 1 {
+			c.Size = 1
+		}
+		if c.Size > 16<<20 {
+			c.Size = 16 << 20
+		}
+		// a reader that takes exactly everything may or may not be told of the end with the last bytes: left out
+		if c.Take < 0 {
+			c.Take = 0
+		}
+		if c.Take >= c.Size {
+			c.Take = c.Size - 1
+		}
+		if c.ReadAll {
+			c.Take = 0
+		}
+	}
+	in.Calls = calls
+	if in.ClientKind != 1 {
+		in.ClientKind = 0
+	}
+	return in
+}
+
 // ---------- deadline ----------
 
 func c12RunDeadline(in c12In) c12Obs {
@@ -685,6 +973,8 @@ func (c12) Run(inAny any) any {
 		return c12RunDrain(in)
 	case "deadline":
 		return c12RunDeadline(in)
+	case "reuse":
+		return c12RunReuse(in)
 	}
 	return c12RunCall(in)
 }
@@ -711,8 +1001,26 @@ func (c12) Coq(inAny any, obsAny any) string {
 		}
 		return fmt.Sprintf("CDeadline %s %s %s %s %s", parent, coqZ(in.timeout().Nanoseconds()), coqZ(in.clientTimeout().Nanoseconds()), observed, coqZ(obs.DurationNs))
 	}
+	if in.Kind == "reuse" {
+		calls := make([]string, 0, len(in.Calls))
+		for i, c := range in.Calls {
+			var e c12ExchObs
+			if i < len(obs.Exch) {
+				e = obs.Exch[i]
+			}
+			calls = append(calls, fmt.Sprintf("(mkxo %s %s %s %s %d %s)", coqN(uint64(c.Size)), coqBool(c.ReadAll), coqN(uint64(e.Taken)),
+				coqBool(e.Ended), e.Closes, coqBool(e.OK && !obs.Panicked)))
+		}
+		return fmt.Sprintf("CReuse %s [%s] %d", coqBool(in.KeepAlive), strings.Join(calls, "; "), obs.Conns)
+	}
 	files := coqList(in.Files, func(f c12File) string {
-		return fmt.Sprintf("(mkfp %s %s %s)", coqBool(f.Declared), coqBool(f.SniffOK), coqList(f.Chunks, coqBool))
+		rd := func(ok bool) string {
+			if ok {
+				return "RdOk"
+			}
+			return c12ErrKind(f)
+		}
+		return fmt.Sprintf("(mksf %s %s %s %s %s)", coqBool(f.Declared), rd(f.Declared || f.SniffOK), coqList(f.Chunks, rd), coqBool(f.WithData), coqBool(f.Once))
 	})
 	auth := "ANone"
 	switch in.Auth {
@@ -781,6 +1089,31 @@ func (c12) Classify(inAny any, obsAny any) []string {
 		}
 		return []string{"lifecycle.debug_dump_closes_response_body_twice"}
 	}
+	// F-C12-6 (open): an upload source that reports io.ErrUnexpectedEOF ONCE inside the sniffing window and io.EOF afterwards:
+	// io.ReadFull's own answer for a short file, so the part is sent truncated and the call succeeds. Only when that is the
+	// one reason for the verdict: the call succeeded, everything was released, and every failing source is of that kind.
+	if in.Kind == "call" && obs.OK && !obs.Panicked && !in.ParamErr && obs.GoroutineGone && obs.RespCloses == obs.RespOpened && obs.InTime {
+		swallowed, other := false, false
+		for i, f := range in.Files {
+			if i < len(obs.FileCloses) && obs.FileCloses[i] != 1 {
+				other = true
+			}
+			failsAtSniff := !f.Declared && !f.SniffOK
+			failsInCopy := false
+			for _, ok := range f.Chunks {
+				failsInCopy = failsInCopy || !ok
+			}
+			switch {
+			case failsAtSniff && f.Once && c12ErrCode(f) == 1:
+				swallowed = true
+			case (failsAtSniff || failsInCopy) && c12ErrCode(f) != 2:
+				other = true
+			}
+		}
+		if swallowed && !other && (!in.KeepAlive || obs.RespLeft == 0) {
+			return []string{"lifecycle.unexpected_eof_once_in_sniff_window_taken_for_short_file"}
+		}
+	}
 	return nil
 }
 
@@ -824,6 +1157,27 @@ func (c12) Category(inAny any, obsAny any) (string, bool) {
 			t = "tiny-timeout"
 		}
 		return "deadline/" + p + "/" + t + c12ClientClass(in), true
+	}
+	if in.Kind == "reuse" {
+		all, none := true, true
+		for _, c := range in.Calls {
+			all, none = all && c.ReadAll, none && !c.ReadAll
+		}
+		rd := "mixed"
+		if none {
+			rd = "all-leave-unread"
+		} else if all {
+			rd = "all-read-to-end"
+		}
+		ka := "plain"
+		if in.KeepAlive {
+			ka = "reuse-enabled"
+		}
+		enc := "content-length"
+		if in.Chunked {
+			enc = "chunked"
+		}
+		return fmt.Sprintf("reuse/real-server/%s/calls%d/%s/%s%s", ka, len(in.Calls), rd, enc, c12ClientClass(in)), len(in.Calls) > 0
 	}
 	if in.ParamErr {
 		return "call/param-error", true
@@ -878,13 +1232,27 @@ func (c12) Category(inAny any, obsAny any) (string, bool) {
 	}
 	failing := "sources-ok"
 	for _, f := range in.Files {
+		where := ""
 		if !f.Declared && !f.SniffOK {
-			failing = "source-fails"
+			where = "sniff"
 		}
 		for _, ok := range f.Chunks {
-			if !ok {
-				failing = "source-fails"
+			if !ok && where == "" {
+				where = "copy"
 			}
+		}
+		if where != "" {
+			failing = "source-fails@" + where + ":" + c12ErrNames[c12ErrCode(f)]
+			if c12ErrCode(f) == 2 {
+				failing = "source-ends-early@" + where
+			}
+			if f.WithData {
+				failing += "+data"
+			}
+			if f.Once {
+				failing += "+once"
+			}
+			break
 		}
 	}
 	return "call/" + a + "/" + t + "/body-" + rd + "/" + failing, true
@@ -965,8 +1333,14 @@ func c12GenFiles(r *rand.Rand, allowFail bool) []c12File {
 		}
 		fs = append(fs, f)
 	}
-	if allowFail && r.Intn(2) == 0 { // one failing Read, placed anywhere
+	if allowFail && r.Intn(2) == 0 { // one failing Read, placed anywhere, with any error value
 		f := &fs[r.Intn(len(fs))]
+		if r.Intn(3) > 0 {
+			f.Err = r.Intn(len(c12ErrValues))
+		}
+		f.WithData = r.Intn(4) == 0
+		f.Once = r.Intn(4) == 0
+		f.SniffGot = []int{0, 0, 1, 100, 511}[r.Intn(5)]
 		pos := r.Intn(len(f.Chunks) + 1)
 		if pos == len(f.Chunks) {
 			if f.Declared {
@@ -1022,6 +1396,17 @@ func (c12) Gen(r *rand.Rand, tier string, i int) any {
 		}
 		return in
 	}
+	if r.Intn(30) == 0 { // a history of calls on one Runtime against a real server
+		in := c12In{Kind: "reuse", KeepAlive: r.Intn(3) > 0, Chunked: r.Intn(2) == 0, ClientKind: r.Intn(2)}
+		for j := 1 + r.Intn(4); j > 0; j-- {
+			c := c12Exch{Size: []int{10, 5000, 64<<10 + 1, 300_000, 1 << 20, 2<<20 + 17}[r.Intn(6)], ReadAll: r.Intn(5) == 0}
+			if !c.ReadAll {
+				c.Take = []int{0, 1, 16, 100, 4096, c.Size / 2}[r.Intn(6)]
+			}
+			in.Calls = append(in.Calls, c)
+		}
+		return c12NormReuse(in)
+	}
 	in := c12In{Kind: "call", NValues: r.Intn(4), Auth: r.Intn(3), Asks: r.Intn(2) == 0, LateErr: r.Intn(6) == 0,
 		Fail: r.Intn(2) == 0, Reads: []int{-1, -1, 0, 1}[r.Intn(4)], Resp: r.Intn(3), KeepAlive: r.Intn(2) == 0, ParamErr: r.Intn(15) == 0}
 	// a failing source together with a transport that answers after reading only part of the body is left
@@ -1061,6 +1446,106 @@ func (c12) Gen(r *rand.Rand, tier string, i int) any {
 		}
 	}
 	return in
+}
+
+// c12EnumErrValues: every error value x every failing position (the sniffing window after 0 / 100 / 511 bytes, every Read of the
+// copy, the Read after the last chunk) of a declared and of a sniffed upload x the ways the request body gets consumed to its end
+// (GetBody in the auth writer; the transport reading everything, then answering or failing; the Debug dump) x the error alone or
+// together with some bytes.
+func c12EnumErrValues() []any {
+	var out []any
+	type pos struct {
+		declared bool
+		at       int // -1: the sniff; k: chunk k
+		got      int
+	}
+	var places []pos
+	for _, k := range []int{0, 1, 2} {
+		places = append(places, pos{true, k, 0})
+	}
+	for _, g := range []int{0, 100, 511} {
+		places = append(places, pos{false, -1, g})
+	}
+	for _, k := range []int{0, 1} {
+		places = append(places, pos{false, k, 0})
+	}
+	for code := range c12ErrValues {
+		for pi, pl := range places {
+			for sc := 0; sc < 4; sc++ {
+				for _, wd := range []bool{false, true} {
+					if wd && (code+pi+sc)%2 == 1 { // with data: every other combination
+						continue
+					}
+					f := c12File{Declared: pl.declared, SniffOK: true, Chunks: []bool{true, true, true}, Err: code, WithData: wd}
+					if pl.declared || pl.at >= 0 {
+						f.Chunks = f.Chunks[:c12Min(3, pl.at+2)]
+						f.Chunks[pl.at] = false
+					} else {
+						f.SniffOK, f.SniffGot = false, pl.got
+					}
+					in := c12In{Kind: "call", NValues: (code + pi) % 2, Files: []c12File{f}, Reads: -1, KeepAlive: (code+sc)%2 == 0}
+					if pi%3 == 1 { // a healthy file before and after the failing one
+						ok := c12File{Declared: pi%2 == 0, SniffOK: true, Chunks: []bool{true}}
+						in.Files = []c12File{ok, f, ok}
+					}
+					switch sc {
+					case 0:
+						in.Auth, in.Asks = 1, true
+					case 1: // the transport reads everything, then answers
+					case 2:
+						in.Debug = true
+					case 3:
+						in.Fail = true
+					}
+					out = append(out, in)
+					// the same with a source that is not sticky: the value is reported once, io.EOF afterwards
+					if !wd && (pl.at < 0 || (code+pi+sc)%3 == 0) {
+						in2 := in
+						in2.Files = append([]c12File(nil), in.Files...)
+						for i := range in2.Files {
+							if !in2.Files[i].SniffOK || len(in2.Files[i].Chunks) > 0 && !in2.Files[i].Chunks[len(in2.Files[i].Chunks)-1] {
+								in2.Files[i].Once = true
+							}
+						}
+						out = append(out, in2)
+					}
+				}
+			}
+		}
+	}
+	return out
+}
+
+func c12Min(a, b int) int {
+	if a < b {
+		return a
+	}
+	return b
+}
+
+// c12EnumReuse: histories of calls on one Runtime against a real server: connection reuse enabled or not x the runtime's own
+// client or one of the caller x Content-Length or chunked x what the readers leave unread (a lot, a little that is already
+// buffered, nothing; bodies from 10 bytes to 5 MiB).
+func c12EnumReuse() []any {
+	var out []any
+	hists := [][]c12Exch{
+		{{Size: 1 << 20, Take: 16}, {Size: 1 << 20, Take: 16}, {Size: 1 << 20, Take: 16}},
+		{{Size: 300_000, Take: 0}, {Size: 1 << 20, ReadAll: true}, {Size: 64<<10 + 1, Take: 4096}, {Size: 2<<20 + 17, Take: 100}},
+		{{Size: 10, Take: 3}, {Size: 5000, Take: 100}, {Size: 100, Take: 0}},
+		{{Size: 5 << 20, Take: 1 << 20}, {Size: 5 << 20, Take: 1}},
+		{{Size: 1 << 20, Take: 16}},
+		{{Size: 70_000, ReadAll: true}, {Size: 70_000, ReadAll: true}, {Size: 1 << 20, Take: 1000}, {Size: 20, ReadAll: true}, {Size: 1 << 20, Take: 0}},
+	}
+	for _, ka := range []bool{true, false} {
+		for kind := 0; kind < 2; kind++ {
+			for _, chunked := range []bool{false, true} {
+				for _, h := range hists {
+					out = append(out, c12NormReuse(c12In{Kind: "reuse", KeepAlive: ka, ClientKind: kind, Chunked: chunked, Calls: h}))
+				}
+			}
+		}
+	}
+	return out
 }
 
 func (c12) Enumerate(tier string) []any {
@@ -1218,6 +1703,8 @@ func (c12) Enumerate(tier string) []any {
 			}
 		}
 	}
+	out = append(out, c12EnumErrValues()...)
+	out = append(out, c12EnumReuse()...)
 	for _, p := range []int64{-1, 0, 7200_000} {
 		for _, t := range c12TimeoutsNs {
 			out = append(out, c12In{Kind: "deadline", ParentMs: p, TimeoutNs: t})
